@@ -433,6 +433,38 @@ class Receiver:
                 return out
 
 
+# Fixed vector from /repo/tests/test_packetizer.py (test_read/test_write): AES-128-CBC with an
+# all-zero key, IV 0x55*16, hmac-sha1-96 keyed with 0x1f*20, sequence number 0.
+_VECTOR_WIRE = bytes.fromhex(
+    "439197bd5b50ac2587c2c46bc7e938c090d216560d717361387c4c3dfb977de26e03b1a0c21cd641414cb459"
+)
+_VECTOR_PAYLOAD = b"\x64" + u32(100) + u32(1) + u32(900)
+
+
+def selfcheck():
+    """Decode and byte-exactly re-encode the upstream test vector; RefError if this codec is off.
+    (Agreement with paramiko in both directions is established by the C01 check itself.)"""
+
+    def d():
+        return Direction.from_raw("aes128-cbc", "hmac-sha1-96", b"\x00" * 16, b"\x55" * 16, b"\x1f" * 20)
+
+    r = Receiver()
+    r.rekey(d())
+    r.feed(_VECTOR_WIRE)
+    got = r.packets()
+    if len(got) != 1 or got[0][0] != 0 or got[0][1] != _VECTOR_PAYLOAD or r.buf:
+        raise RefError("reference receiver does not decode the test_packetizer vector")
+    clear = d().dec.update(_VECTOR_WIRE[:32])
+    pad = clear[4]
+    s = Sender()
+    s.rekey(d())
+    if s.packet(_VECTOR_PAYLOAD, pad_bytes=clear[32 - pad :]) != _VECTOR_WIRE:
+        raise RefError("reference sender does not reproduce the test_packetizer vector")
+    if kdf("sha1", 1, b"", b"A", b"", 20) != hashlib.sha1(b"\x00\x00\x00\x01\x01A").digest():
+        raise RefError("reference KDF first block")
+    return True
+
+
 def plain_packet(payload, block=8):
     """One unencrypted binary packet (for MITM re-framing)."""
     return Sender().packet(payload)
